@@ -306,6 +306,13 @@ func TestVF_C11_Broker(t *testing.T) {
 			st.Class("class:" + p.Class)
 			st.Class("outcome:" + out.Kind)
 			st.Class("mode:" + mode)
+			if p.Acks0 {
+				if c11Acks0Appends(p.Req, store.unavailable) {
+					st.Class("acks0:some-batch-appendable")
+				} else {
+					st.Class("acks0:every-partition-rejected")
+				}
+			}
 			if p.Advertised {
 				st.Class(fmt.Sprintf("key-%02d", p.Key))
 				if store.unavailable {
@@ -323,14 +330,24 @@ func TestVF_C11_Broker(t *testing.T) {
 			case "wrong-correlation", "extra-reply":
 				t.Fatalf("%s (%s): %s: %v\nreply=%x extra=%x", p.Name(), p.Class, out.Kind, out.Err, c11Clip(out.Reply), c11Clip(out.Extra))
 			case "noreply":
+				if p.Acks0 {
+					st.Class("acks0:no-reply-frame")
+				}
 				if p.Advertised && !p.Acks0 {
 					t.Fatalf("%s is advertised but the request got no reply (connection stayed open)\nshape=%s frame=%x", p.Name(), p.Shape, c11Clip(p.Frame))
 				}
 			case "closed":
-				if p.Advertised {
+				if p.Advertised && !p.Acks0 {
 					t.Fatalf("%s is advertised but the connection was closed without a reply (%v)\nshape=%s frame=%x", p.Name(), out.Err, p.Shape, c11Clip(p.Frame))
 				}
 			case "reply", "reply-then-closed":
+				if p.Acks0 {
+					// A client that produced with acks=0 reads no response. A frame written anyway stays in
+					// the stream and is taken for the reply to the NEXT request of the connection (wrong
+					// correlation id, wrong body), and every later reply is shifted by one.
+					t.Fatalf("%s with acks=0 got a reply frame (%d bytes, correlation id echoed): the client reads none, so the next request on this connection is answered with this stale frame\nmode=%s appended=%v shape=%s\nrequest=%x\nreply=%x",
+						p.Name(), len(out.Reply), mode, c11Acks0Appends(p.Req, store.unavailable), p.Shape, c11Clip(p.Frame), c11Clip(out.Reply))
+				}
 				msg, note := vfc11kit.JudgeReply(p, tb, out.Reply)
 				if msg != "" {
 					t.Fatalf("%s (%s): reply is not decodable at the request version: %s\nshape=%s\nrequest=%x\nreply=%x", p.Name(), p.Class, msg, p.Shape, c11Clip(p.Frame), c11Clip(out.Reply))
@@ -407,6 +424,26 @@ func TestVF_C11_Witness(t *testing.T) {
 	st.NonTrivial("witness", still)
 	st.Sample(map[string]any{"result": what})
 	t.Log(what)
+}
+
+// c11Acks0Appends: can this produce append anything (store reachable and at least one
+// partition carries a well-formed v2 batch)? Used for the class histogram only.
+func c11Acks0Appends(req kmsg.Request, unavailable bool) bool {
+	pr, ok := req.(*kmsg.ProduceRequest)
+	if !ok || unavailable {
+		return false
+	}
+	for _, t := range pr.Topics {
+		if t.Topic == "" {
+			continue
+		}
+		for _, p := range t.Partitions {
+			if len(p.Records) >= 61 && p.Records[16] == 2 {
+				return true
+			}
+		}
+	}
+	return false
 }
 
 func c11Clip(b []byte) []byte {
